@@ -572,7 +572,7 @@ class _ScopeVisitor(_ExpressionVisitor):
                 try:
                     pyname = module[name]
                 except exceptions.AttributeNotFoundError:
-                    pyname = pynamesdef.AssignedName(node.lineno)
+                    pyname = pynamesdef.AssignedName(node.lineno, module=module)
             self.names[name] = pyname
 
 
